@@ -119,6 +119,9 @@ class Firmware:
                              "ack": ack, "err": err, "final": final, "dropped": not got})
 
     def unsolicited(self, text):
+        if self.k.now < self.boot_done_at:
+            self.k.probe("fault.unsolicited_skipped_while_booting")   # a booting device is silent
+            return
         if not self.dead:
             self.k.probe("fault.unsolicited")
             self._emit_now(text, None, False)
